@@ -25,5 +25,5 @@ func (r *rng) bytes(n int) []byte {
 	}
 	return b
 }
-func (r *rng) pick(bs []byte) byte { return bs[r.intn(len(bs))] }
+func (r *rng) pick(bs []byte) byte      { return bs[r.intn(len(bs))] }
 func (r *rng) chance(num, den int) bool { return r.intn(den) < num }
